@@ -1,4 +1,5 @@
 import Dashu.Model.Serde.Num
+import Dashu.Gen.MacroGen
 /-
   C20 — the literal macros `ubig! ibig! fbig! dbig! rbig!` and their `static_` variants
   (core Lean only).  Mirrors macros/src/parse/{int,float,ratio,common}.rs.
@@ -152,9 +153,10 @@ inductive GenPath where
 def GenPath.name : GenPath → String
   | .const => "const" | .bytes => "bytes" | .static => "static"
 
-/-- which generator `parse_integer` picks for a magnitude -/
+/-- which generator `parse_integer` picks for a magnitude; the guard of the const path is the regenerated
+    one (`Gen/MacroGen.lean`, Tie A) -/
 def intPath (static_ : Bool) (m : Nat) : GenPath :=
-  if bitLen m ≤ 32 && !static_ then .const else if static_ then .static else .bytes
+  if Dashu.Gen.Macro.int_const_guard (bitLen m) static_ then .const else if static_ then .static else .bytes
 
 /-- `le_bytes_to_uN_array`: chunks of `k` bytes, the last one zero padded -/
 def bytesToWords (k : Nat) (bs : Bytes) : List Nat :=
@@ -170,10 +172,11 @@ def valWords (W : Nat) : List Nat → Nat
   | [] => 0
   | w :: ws => w + 2 ^ W * valWords W ws
 
-/-- `quote_words`: for one selector, `(LEN, DATA)` with `DATA` zero padded to `max_len` -/
+/-- `quote_words`: for one selector, `(LEN, DATA)` with `DATA` zero padded to `max_len` (the regenerated
+    formula of `Gen/MacroGen.lean`, Tie A) -/
 def quoteWords (k : Nat) (bs : Bytes) : Nat × List Nat :=
   let ws := bytesToWords k bs
-  let maxLen := (bs.length + 1) / 2
+  let maxLen := Dashu.Gen.Macro.quote_words_max_len bs.length
   (ws.length, ws ++ List.replicate (maxLen - ws.length) 0)
 
 /-- what `from_static_words(&DATA[..LEN])` denotes for the selector of `8k`-bit words;
@@ -183,6 +186,23 @@ def staticValue (k : Nat) (bs : Bytes) : Option Nat :=
   let ws := data.take len
   if ws.getLast? = some 0 then none else some (valWords (8 * k) ws)
 
+/-- the selection `type Select = DataSelector<{Word::BITS}>` of `quote_words`, read off the regenerated
+    `impl DataSource for DataSelector<S>` table (`Gen/MacroGen.lean`): `DATA` = the tokens of one converter
+    padded to `max_len`, `LEN` = the length another (the same, as the code is) converter returned, the
+    slice `DATA_COPY[..LEN]` read as `W`-bit words by `from_static_words`; `none` = no selector for this
+    word size, an array whose element type is not `Word` (the expansion does not compile), or the
+    normalisation assertion fails -/
+def staticSelect (W : Nat) (bs : Bytes) : Option Nat :=
+  match Dashu.Gen.Macro.selectors.find? (fun r => r.1 == W) with
+  | none => none
+  | some (_, ity, dty, lconv, tconv) =>
+    if ity ≠ W ∨ dty ≠ W ∨ tconv ≠ dty then none
+    else
+      let ws := bytesToWords (Dashu.Gen.Macro.converter_int_size tconv) bs
+      let data := ws ++ List.replicate (Dashu.Gen.Macro.quote_words_max_len bs.length - ws.length) 0
+      let sl := data.take (bytesToWords (Dashu.Gen.Macro.converter_int_size lconv) bs).length
+      if sl.getLast? = some 0 then none else some (valWords W sl)
+
 -- ================================================================ floats
 
 def concatToks (toks : List Tok) : Bytes := toks.flatMap Tok.text
@@ -190,32 +210,52 @@ def concatToks (toks : List Tok) : Bytes := toks.flatMap Tok.text
 /-- `Repr::<B>::from_str_native` + `Repr::new`: (normalised repr, digits written) -/
 def floatParse (B : Nat) (s : Bytes) : Option (FVal × Nat) := parseF B s
 
-/-- `parse_binary_float` as it is: the macro strips the sign and one `_`, the parser must then
-    return a non-negative number (`assert!(signif.is_positive())`): (sign·mag, exp, prec) -/
-def fbigAsIs (toks : List Tok) : Option (Bool × Nat × Int × Nat) := do
-  let s := concatToks toks
-  let (neg, rest) := stripSign s
-  let rest := match rest with
-    | 95 :: r => r
-    | r => r
-  let (v, nd) ← floatParse 2 rest
-  if v.signif < 0 then none else pure (neg, v.signif.natAbs, v.exp, nd)
+/-- one leading `_` removed (`value_str.strip_prefix('_').unwrap_or(value_str)`) -/
+def stripUs : Bytes → Bytes
+  | 95 :: r => r
+  | r => r
 
-/-- `parse_decimal_float` as it is -/
-def dbigAsIs (toks : List Tok) : Option (Bool × Nat × Int × Nat) := do
-  let (v, nd) ← floatParse 10 (concatToks toks)
-  pure (v.signif < 0, v.signif.natAbs, v.exp, nd)
+/-- `let f = FBin::from_str(value_str)…; assert!(signif.is_positive())` (zero counts as positive) and
+    the parts the expansion is built from: (negative?, magnitude, exponent, precision) -/
+def fbigFinish (neg : Bool) : Option (FVal × Nat) → Option (Bool × Nat × Int × Nat)
+  | none => none
+  | some (v, nd) => if v.signif < 0 then none else some (neg, v.signif.natAbs, v.exp, nd)
+
+/-- `parse_binary_float` before /repo e26a9db: the macro strips the sign and one `_`, the parser must
+    then return a non-negative number (`assert!(signif.is_positive())`): (sign·mag, exp, prec) -/
+def fbigAsIs (toks : List Tok) : Option (Bool × Nat × Int × Nat) :=
+  let sr := stripSign (concatToks toks)
+  fbigFinish sr.1 (floatParse 2 (stripUs sr.2))
+
+/-- `value_str.starts_with('-') || value_str.starts_with('+')` after the sign and the `_` were stripped -/
+def fbigSecondSign (toks : List Tok) : Bool :=
+  let u := stripUs (stripSign (concatToks toks)).2
+  u.head? == some 45 || u.head? == some 43
+
+/-- `parse_binary_float` (macros/src/parse/float.rs) since /repo e26a9db, statement by statement: the
+    tokens are concatenated, `strip_prefix('-')` / `strip_prefix('+')` gives the sign, one `_` is
+    stripped, a second sign is refused (`panic_fbig_syntax`), `FBig::from_str` parses the rest,
+    `assert!(signif.is_positive())`; `none` = panic at expansion time = compile error -/
+def fbigNew (toks : List Tok) : Option (Bool × Nat × Int × Nat) :=
+  if fbigSecondSign toks then none else fbigAsIs toks
+
+/-- `parse_decimal_float`, statement by statement: `DBig::from_str` on the concatenated tokens, then
+    `signif.into_parts()` -/
+def dbigAsIs (toks : List Tok) : Option (Bool × Nat × Int × Nat) :=
+  match floatParse 10 (concatToks toks) with
+  | none => none
+  | some (v, nd) => some (decide (v.signif < 0), v.signif.natAbs, v.exp, nd)
+
+/-- the float the expansion is built from: `IBig::from_parts(sign, mag)`, exponent, precision -/
+def fpOfParts (p : Bool × Nat × Int × Nat) : FPVal := ⟨signedVal p.1 p.2.1, p.2.2.1, p.2.2.2⟩
 
 /-- the text the run-time parser sees for `fbig!`: the single `_` after the optional sign is
     macro-only syntax and is removed -/
 def fbigRtText (s : Bytes) : Bytes :=
-  let (sg, rest) : Bytes × Bytes := match s with
-    | 45 :: r => ([45], r)
-    | 43 :: r => ([43], r)
-    | r => ([], r)
-  sg ++ (match rest with
-    | 95 :: r => r
-    | r => r)
+  match s with
+  | 45 :: r => 45 :: stripUs r
+  | 43 :: r => 43 :: stripUs r
+  | r => stripUs r
 
 /-- the run-time parser on the same text -/
 def rtFloat (binary : Bool) (toks : List Tok) : Option FPVal :=
@@ -234,12 +274,15 @@ def floatExpansionAsIs (static_ : Bool) (neg : Bool) (mag : Nat) (e : Int) (prec
 def floatPath (static_ : Bool) (mag : Nat) : GenPath :=
   if bitLen mag ≤ 32 then .const else if static_ then .static else .bytes
 
-/-- value and precision of an accepted float literal = what the run-time parser returns -/
+/-- value and precision of an accepted float literal = what the run-time parser returns; for `fbig!`
+    the sign comes first (`_-1`, `_+1`, `-+1` are outside the grammar) -/
 def floatLiteral (binary : Bool) (toks : List Tok) : Option FPVal :=
-  match (if binary then fbigAsIs toks else dbigAsIs toks), rtFloat binary toks with
-  | some (neg, mag, e, nd), some v =>
-    if signedVal neg mag = v.signif ∧ e = v.exp ∧ nd = v.prec then some v else none
-  | _, _ => none
+  if binary && fbigSecondSign toks then none
+  else
+    match (if binary then fbigAsIs toks else dbigAsIs toks), rtFloat binary toks with
+    | some (neg, mag, e, nd), some v =>
+      if signedVal neg mag = v.signif ∧ e = v.exp ∧ nd = v.prec then some v else none
+    | _, _ => none
 
 -- ================================================================ rationals
 
